@@ -55,6 +55,19 @@ Theorem c16_web_resp_hyper : forall e evs t,
   (map (fun d => SData (encode_bytes e d)) (datas evs) ++ [SData (encode_bytes e (trailers_frame t))], true).
 Proof. exact resp_hyper. Qed.
 
+(* is_end_stream in the Encode direction against the WHOLE state of the call (staging buffer
+   [buf] and inner body): when it answers true NOTHING more is delivered.  poll_encode hands
+   out everything in the poll that produced it; an encoder that staged output in [buf] (and kept
+   `inner.is_end_stream()`) would refute this statement, and the sized eos.response_sized kinds
+   of the harness (message sizes mined around every numeric threshold of call.rs, read by a
+   hyper-like consumer) would produce the size at which the tail is lost *)
+Theorem c16_web_encode_is_end_stream_contract : forall e buf evs,
+  encode_is_end_stream 1 buf evs = true -> drain_encode_st e buf evs = [SNone].
+Proof. exact encode_is_end_stream_contract. Qed.
+
+Theorem c16_web_encode_stateless : forall e buf evs, drain_encode_st e buf evs = drain_encode e evs.
+Proof. exact drain_encode_st_eq. Qed.
+
 (* "decodes to the identical message bytes followed by exactly one trailers frame listing every
    trailer", judged by the grpc-web client decoder of C17 under ANY re-chunking of the emitted
    bytes by the transport *)
